@@ -301,6 +301,15 @@ theorem C20_stopped_observations (ts ts' : List ThX) (x : StX) (hr : Reach sysX 
     obtain ⟨h1, h2⟩ := (C20_stopped_ctx_before_return ts ts' x hr).2 hs
     simp [obsOk, h1, h2]
 
+/-- **`BackgroundWorker` returns `ErrDaemonAlreadyStopped` only when the stopped flag is set** (the observation kind
+`refused` of `obsOk`): a step of a call that appends the refusal `stopped` to the trace is taken in a state with the flag
+set — the unlocked pre-check or the re-check under the lock; with `C20_stopped_monotone` the flag is still set whenever it
+is read afterwards. -/
+theorem C20_refused_only_when_stopped (s s' : St) (c name : Nat) (order : Int) (pc : CallPc) (t' : Th)
+    (h : (s', t') ∈ step true true s (.bw c name order pc))
+    (hr : Ev.refuse c name .stopped ∈ s'.tr) (hn : Ev.refuse c name .stopped ∉ s.tr) : s.stopped = true :=
+  bw_refused_stopped_only_when_stopped h hr hn
+
 /-- Pool of the call-back example: worker 1 (order 5) whose handler registers worker 2 (order 0) while the daemon
 runs and tries to register worker 3 and to `Start` after it has seen its cancellation; `Start`; `ShutdownAndWait`; the
 goroutine of the worker registered from inside the handler; a poller of `ContextStopped()`. -/
